@@ -663,6 +663,52 @@ class C12(core.Check):
     design_ref = "DESIGN.md section 5, C12"
     correspondence_name = "extracted MainLoop model vs real MainLoop + SelectEventLoop on an instrumented screen"
     search_budget = {"quick": 60, "thorough": 300}
+    technique = ("Coq theorems (monadic interpreter with exceptions as values refined to specification lists cut at the "
+                 "first fault; symbolic execution of start/stop over explicit screen and terminal records) about a "
+                 "hand-written model of MainLoop + raw_display start/stop; exact extracted-model trace correspondence "
+                 "against the real MainLoop/SelectEventLoop/raw_display.Screen on pipes; fault-injection oracle on the "
+                 "real screen over a pty with every installed event loop")
+    level_text = ("Proved in Coq for EVERY configuration (screen with / without hook_event_loop, input filter, unhandled "
+                  "handler, widget answers, pop_ups, handle_mouse, bracketed paste, focus reporting, tty or not, screen "
+                  "pre-started or not), EVERY script (rounds of key / mouse / resize / alarm / pipe / file events, or get_input "
+                  "results) and EVERY fault plan (callback invocation index -> ExitMainLoop | exception e), no bound: "
+                  "(1) the callbacks and screen.draw_screen calls are exactly the demanded sequence (filter, then per key the "
+                  "topmost widget and unhandled_input iff not handled, arrival order, render+draw after every round) cut "
+                  "right after the first faulting invocation; (2) a first fault ExitMainLoop makes run() return normally, a "
+                  "first fault `raise e` makes exactly e leave run(), and nothing else can leave run(); (3) the display is "
+                  "stopped and every terminal mode, the tty settings and the SIGWINCH/SIGTSTP handlers are as before run() on "
+                  "every path (premise: the SIGCONT handler was SIG_DFL; without it the clause is REFUTED in the model, "
+                  "always_restored_full_refuted, and on the implementation: known finding).  These are theorems about the "
+                  "MODEL of urwid's control flow.  The model is tied to the code by exact correspondence of the full call trace "
+                  "(screen calls, DEC private mode writes in write order, callbacks), outcome, final modes and signal handlers "
+                  "with the real MainLoop + SelectEventLoop driving the real raw_display.Screen on pipes (no tty) and a plain "
+                  "BaseScreen fake (4k+ sessions per quick run).  PARTIAL BY NATURE / oracle only: termios save/restore, "
+                  "delivery through a real pty, and the five other event loops (asyncio, tornado, trio, twisted, zmq) are "
+                  "examined by fault injection at every callback index on a pty (final states only), not by proof; the glib loop "
+                  "is not installed.  The event loop inside the model is the C13 contract, not the loops' code.")
+    level_note = ("Trusted: Coq kernel; ExtrOcamlBasic extraction + OCaml driver; the hand-written model (validated by the "
+                  "correspondence, not proved against Python); the instrumentation in harness/props/c12.py; the Python oracle.  "
+                  "Assumes: callbacks do nothing but return or raise (they do not stop the screen, change signal handlers or "
+                  "add alarms); a topmost widget wrapped by PopUpTarget is a urwid.Widget; 'window resize' reaches draw_screen "
+                  "only after it was delivered; no gpm mouse (linux console).")
+    rule = ("cases = (kind, config, widget answers, script, fault plan).  kind hook/plain: every base script x config x widget "
+            "x every callback index x {ExitMainLoop, exception} (exhaustive over fault points), plus random sessions with 0-2 "
+            "planned faults; kind pty: real screen on a pty x each installed event loop x fault at callback indices of a fixed "
+            "chained session.  non-trivial = at least one user callback was invoked; distinct by hash of (case, outcome)")
+    trusted_base = [
+        "Coq 8.16.1 kernel (coqc; vm_compute used for closed examples, the refutation witness and the finite case splits of start/stop)",
+        "extraction: ExtrOcamlBasic only; Z/positive stay Coq datatypes; OCaml 4.13.1; tools/driver/driver.ml",
+        "hand-written model Model/MainLoop.v of main_loop.py and of Screen._start/_stop (validated by the trace correspondence)",
+        "harness/props/c12.py: instrumented Screen subclass, escape-sequence decoder, fault injector, worker protocol, oracle",
+        "the abstraction of SelectEventLoop to its C13 contract (due alarms in order, then idle, ExitMainLoop swallowed)",
+    ]
+    assumptions = [
+        "user callbacks only return or raise: they do not call screen.stop()/loop.stop(), install signal handlers or schedule alarms",
+        "the screen is stopped (or started by the application through screen.start()) when run() is entered; terminal in its initial modes",
+        "pop_ups=True wraps a urwid.Widget (which always has mouse_event)",
+        "pty / termios / signal delivery / third-party loop runtimes are observed (oracle), not modelled",
+        "SIGCONT handler is SIG_DFL before run() (otherwise: known finding C12-sigcont-handler-reset-to-default)",
+    ]
 
     WORKER_TIMEOUT = 15
     PTY_TIMEOUT = 25
@@ -974,7 +1020,7 @@ class C12(core.Check):
         return isinstance(res, dict) and res.get("ncb", 0) > 0
 
     def signature(self, case, msg):
-        return case["kind"] + ":" + re.sub(r"\d+", "N", msg)[:90]
+        return case["kind"] + ":" + case.get("loop", "") + ":" + re.sub(r"\d+", "N", msg)[:90]
 
     def distribution(self, case, res, dist):
         def inc(k):
@@ -1072,7 +1118,7 @@ class C12(core.Check):
                 for w in self.WIDGETS[:2]:
                     yield {"kind": "plain", "cfg": dict(cfg), "widget": w, "inputs": s}
 
-    def random_case(self, rng, kind=None):
+    def random_case(self, rng, kind=None, sigcont=False):
         kind = kind or rng.choice(["hook", "hook", "plain"])
         codes = [97, 98, 99, 100, 101, 12]
 
@@ -1085,7 +1131,9 @@ class C12(core.Check):
                "unhandled": rng.choice([None, 0, 1]), "handle_mouse": rng.random() < 0.7, "pop_ups": rng.random() < 0.3,
                "paste": rng.random() < 0.4, "focus": rng.random() < 0.4, "prestarted": rng.random() < 0.2,
                "pre_alarms": [rng.randrange(1, 9) for _ in range(rng.choice([0, 0, 1, 2]))],
-               "sig": [rng.choice([0, 0, 1, 2]), rng.choice([0, 0, 1, 2]), rng.choice([0, 0, 0, 0, 1, 2])]}
+               # (a non-default SIGCONT handler is the known finding: kept rare so that it cannot crowd out
+               #  other violations in the bounded violation list of the pipeline)
+               "sig": [rng.choice([0, 0, 1, 2]), rng.choice([0, 0, 1, 2]), rng.choice([1, 2]) if sigcont else 0]}
         wc = {"selectable": rng.random() < 0.8, "has_mouse": True,
               "keys": {str(cd): rng.choice([0, 0, cd, rng.choice(codes)]) for cd in rng.sample(codes, rng.randrange(0, 4))},
               "mouse": rng.sample([1, 2, 3], rng.randrange(0, 3)), "cursor": rng.random() < 0.5}
@@ -1181,8 +1229,8 @@ class C12(core.Check):
         for base in ({"kind": "hook", "cfg": {"filter": [], "unhandled": 0, "pop_ups": False}, "widget": self.DUCK,
                       "rounds": [[["in", [[1, 98, 0, 0], [2, 1, 1, 1]]]]]},):
             yield from self.with_faults(base)
-        for _ in range(1500 if tier == "quick" else 20000):
-            yield self.random_case(rng)
+        for i in range(1500 if tier == "quick" else 20000):
+            yield self.random_case(rng, sigcont=(i % (150 if tier == "quick" else 1000) == 7))
         yield from self.prefetching(self.pty_cases(tier))
 
     def search_cases(self, rng, tier):
